@@ -111,6 +111,7 @@ def report(ctx, prop, meta, t0, seed=0, write=True, replay_dir=None):
                 'functions_analysed': ctx.stats.get('functions', 0),
                 'call_edges': ctx.stats.get('call_edges', 0),
                 'templates': ctx.stats.get('templates', 0),
+                'facts_normalised': ctx.stats.get('normalised', {}),
                 'known_findings': [o.key for o in kn],
                 'not_decided': meta.get('not_decided', []),
                 'notes': ctx.notes.get(prop, []),
